@@ -10,6 +10,10 @@ pub mod c08;
 pub mod mk;
 #[cfg(kani)]
 pub mod c11;
+#[cfg(kani)]
+pub mod c09;
+#[cfg(kani)]
+pub mod c10;
 
 /// Counterexample replay (see lib/replay.py): the generated concrete-playback tests.
 #[cfg(all(kani, verif_playback))]
